@@ -40,6 +40,9 @@ def line(req):
     if op == 'accepts':
         _, n, K, ps = req
         return 'accepts %d %s %s' % (n, core.names_line(K), core.params_line(ps))
+    if op == 'visit':
+        from . import real_disc
+        return real_disc.visit_line(req)
     if op in ('pyeq', 'pyne', 'hasheq'):
         from . import real_rt
         return '%s %s %s' % (op, real_rt.obj_line(req[1]), real_rt.obj_line(req[2]))
@@ -97,6 +100,10 @@ def parse_model(req, ml):
     toks = ml.split()
     if not toks or toks[0] == 'bad-op':
         raise core.HarnessError('driver answered %r to %r' % (ml, line(req)))
+    if op == 'visit':
+        if toks[0] == 'err':
+            return ('err', toks[1])
+        return ('ok', int(toks[1]), toks[2] if len(toks) > 2 else '_')
     if op in ('pyeq', 'pyne', 'hasheq'):
         if toks[0] == 'ok':
             return ('ok', toks[1] == 'true')
@@ -191,9 +198,11 @@ def real(req, plain=False):
     if op == 'accepts':
         _, n, K, ps = req
         return core.real_accepts(ps, n, K)
-    from . import real_mod, real_rt
+    from . import real_mod, real_rt, real_disc
     if op.startswith('rt:'):
-        return real_rt.RT[op[3:]](req)
+        return (real_rt.RT.get(op[3:]) or real_disc.RT[op[3:]])(req)
+    if op in real_disc.OPS:
+        return real_disc.OPS[op](req)
     if op in real_mod.OPS:
         return real_mod.OPS[op](req)
     if op in real_rt.OPS:
@@ -334,6 +343,10 @@ def run_stream(stream, chunks, projname, oraclename=None, opts=None, procs=None)
     tasks = [(stream, c, projname, oraclename, opts or {}) for c in chunks]
     agg = ChunkResult()
     procs = procs or min(16, os.cpu_count() or 4)
+    from . import streams as _streams
+    pre = getattr(_streams, 'PREFORK', {}).get(stream)
+    if pre:
+        pre()          # build shared, read-only data (the corpus) once, before the workers are forked
     if len(tasks) <= 1 or procs == 1:
         results = map(process_chunk, tasks)
     else:
